@@ -211,9 +211,25 @@ def _install_cache():
             emit("cache_dump", path=os.path.basename(name), n=len(obj) if hasattr(obj, "__len__") else -1)
         return r
 
+    real_makedirs = os.makedirs
+
+    @functools.wraps(real_makedirs)
+    def makedirs(name, *a, **kw):
+        # the per-user folder itself: a process may be pre-empted between deciding to create it and creating it
+        try:
+            p = os.path.abspath(os.fspath(name))
+        except TypeError:
+            p = ""
+        if p == cfgdir or p == os.path.dirname(cfgdir):
+            emit("cache_mkdir", path=os.path.basename(p), existed=os.path.isdir(p))
+            if maxd:
+                time.sleep(rng.random() * maxd)
+        return real_makedirs(name, *a, **kw)
+
     builtins.open = open_
     json.load = load
     json.dump = dump
+    os.makedirs = makedirs
 
 
 # ----------------------------------------------------------------------------- id allocation log (C17)
